@@ -208,6 +208,14 @@ fn compare(t: &CObs, r: &CObs, pert: &[Result<CObs, String>], extra_abs: f64, ex
             }
         }
     }
+    // no correct digit: input perturbations of 1-4 eps move the reference result by a quarter of its own magnitude or
+    // more (an exactly singular matrix, a pole, total cancellation). One backend may then land on the pole itself
+    // (0 for the determinant, inf for the inverse) while the other lands beside it; nothing can be compared
+    for g in 0..ng {
+        if delta[g] > 0.25 * scale[g] && scale[g] > 0.0 {
+            unstable[g] = true;
+        }
+    }
     let mut worst = 0.0f64;
     let mut boundary = false;
     let mut identical = true;
